@@ -11,6 +11,13 @@ Second part: the three parsers applied repeatedly to one shared AST node (and em
 return, whose `_internal` bodies alias the tree): ast.dump of the tree before/after, and every result against
 the result on a fresh copy; the IR a parser returned is then shared by the emitters (docstring included), each compared
 with the same call on a fresh copy of that IR and the IR compared order-sensitively around each call.
+Third part (gen_tree_module / explore_tree): the PARSE side on written modules - one tree object holding several
+definitions (interface stubs and implementations that share a docstring character for character, with and without a
+return entry / a `return` statement; a class with attributes and an `__init__` whose instance argument has any name,
+parsed with and without merge_inner_function; an argparse function; a plain definition); every sequence with repetition
+of parse calls up to length 3/4 on that ONE tree, the caller keeping every IR it was given: ast.dump of the whole tree
+after every call, every held IR against its picture at the time it was returned, every result against the same call on
+an untouched copy of the tree, then the emitters on the last IR (tree and other held IRs watched) and one more parse.
 Failures are classified by finding_class_C13 (coq/model/C13Spec.v) through the driver."""
 import ast
 import collections
@@ -325,7 +332,321 @@ def parser_checks(rng, spec, maxlen):
     return evals, failures
 
 
+# ------------------------------------------------------------------ parsers on one WRITTEN module (source strata)
+# The trees above are what the emitters print: no `__init__`, no method receivers, one definition per tree.  What a
+# caller of gen / sync holds is one module tree with several definitions in it, parsed one after the other (and more
+# than once: one class goes to several targets), the IRs of the earlier parses still in its hands.
+RECEIVERS = ["self", "self", "self", "self", "cls", "cls", "this", "_", "me", "obj", "instance", None]
+STUB_BODIES = ["raise NotImplementedError()", "pass", "...", "raise NotImplementedError", "return None"]
+RETURN_ENTRIES = [("int", "the result."), ("float", "scaled reading"), ("str", "Trained model"), ("List[int]", "the numbers"),
+                  ("bool", "whether it worked."), ("Tuple[int, int]", "a pair")]
+RET_ANNS = ["", "", "", " -> int", " -> float", " -> str", " -> List[int]", " -> Optional[str]"]
+
+
+def _return_tail(rng, ps):
+    """the closing statements of an implementation: mostly a `return <expression>`"""
+    a = ps[0]["name"] if ps else "1"
+    b = ps[-1]["name"] if ps else "2"
+    expr = rng.choice([a, "%s * 2" % a, "%s + %s" % (a, b), "%s, %s" % (a, b), "(%s, %s)" % (a, b), "5", "'x'", "0.5", "None",
+                       "[%s]" % a, "%s * gain + offset" % a, "True", "{'%s': %s}" % (a, a), "str(%s)" % a])
+    pre = rng.choice([[], [], ["offset = 0.5", "gain = 2"], ["print(%s)" % a], ["if %s:\n        return 7" % a]])
+    if rng.random() < 0.1:
+        return pre + [rng.choice(["pass", "return"])]
+    return pre + ["return " + expr]
+
+
+def gen_tree_module(rng):
+    """-> {"src", "targets": [{"path", "parser", "kw", "label"}], "tags"}: one module text with
+      * doc-sharing groups (stratum `shared-doc`): an interface class whose stub methods carry a docstring, and the
+        implementations (top-level functions, sometimes a second one) with the CHARACTER-IDENTICAL docstring - with and
+        without a return entry, stub bodies without a value, implementation bodies that end in `return <expr>`, with
+        and without a `->` annotation: whatever is remembered per docstring text shows between their parses;
+      * a class with attributes and an `__init__` to be merged (parse.class_(..., merge_inner_function='__init__') and
+        without), whose instance argument is called self / cls / anything else / is absent (stratum `receiver:<name>`);
+      * an argparse function (parse.argparse_ast, and parse.function on the same node);
+      * an ordinary function of fam_parsesig's signature shapes (keyword-only, *args, **kwargs, partial docs).
+    Every target names a node of the ONE tree by its path of body indices."""
+    import c12_scen as S
+    import fam_parsesig
+    blocks, targets, tags = [], [], []
+
+    def add(src, entries):
+        """entries: (path inside this block, parser, kw, label)"""
+        k = len(blocks)
+        blocks.append(src.rstrip("\n") + "\n")
+        for sub, parser, kw, label in entries:
+            targets.append({"path": [k] + sub, "parser": parser, "kw": kw, "label": label})
+
+    # ---- doc-sharing groups
+    for g in range(rng.choice([0, 1, 1, 1, 2])):
+        ps, _t = S.gen_params(rng, allow_fail=False)
+        for p in ps:
+            p["sentence"] = p["sentence"].replace("\n", " ")
+        style = rng.choice(["rest", "rest", "google", "numpydoc"])
+        ret = rng.choice(RETURN_ENTRIES) if rng.random() < 0.7 else None
+        doc = S.render_doc(rng, style, rng.choice(S.SUMMARIES), ps, ret)
+        tags.append("shared-doc:%s:%s" % (style, "returns" if ret else "no-returns"))
+        fname = rng.choice(S.FUNC_NAMES) + ("" if g == 0 else str(g))
+        sig = S._sig(rng, ps)
+        ann = rng.choice(RET_ANNS)
+        layout = rng.choice(["stub+impl", "stub+impl", "stub+impl", "impl+impl", "stub+impl+impl", "stub+stub"])
+        tags.append("layout:" + layout)
+        stub_src = ["class %s(object):" % rng.choice(["Interface", "Base", "Sensor", "Protocol_"]) + ("" if g == 0 else ""),
+                    '    """ the interface """', ""]
+        n_stub = layout.count("stub")
+        n_impl = layout.count("impl")
+        entries = []
+        for k in range(n_stub):
+            recv = rng.choice(["self", "self", "self", "cls"])
+            stub_src += ["    def %s(%s)%s:" % (fname if k == 0 else fname + "_too", ", ".join([recv] + ([sig] if sig else [])),
+                                               ann if rng.random() < 0.7 else rng.choice(RET_ANNS)),
+                         S._quote(doc, "        "), "        " + rng.choice(STUB_BODIES), ""]
+            entries.append(([len(entries) + 1], "function", {}, "stub %s" % fname))
+        if n_stub:
+            # the paths of the methods: body[0] is the class docstring, then one FunctionDef per stub
+            add("\n".join(stub_src), entries)
+        impls = []
+        for k in range(n_impl):
+            name = fname if k == 0 else fname + "_v%d" % (k + 1)
+            body = _return_tail(rng, ps)
+            src = "\n".join(["def %s(%s)%s:" % (name, sig, ann if rng.random() < 0.5 else rng.choice(RET_ANNS)), S._quote(doc, "    ")]
+                            + ["    " + l for l in body])
+            impls.append((src, [([], "function", {}, "implementation %s" % name)]))
+        if rng.random() < 0.3:
+            impls.reverse()
+        for src, e in impls:
+            add(src, e)
+    # ---- a class with an __init__ to merge
+    if rng.random() < 0.8:
+        style = rng.choice(["rest", "rest", "google", "numpydoc"])
+        ps, _t = S.gen_params(rng, allow_fail=False)
+        ips, _t = S.gen_params(rng, allow_fail=False)
+        if rng.random() < 0.3:
+            ips = ps                                              # attributes and constructor arguments coincide
+        recv = rng.choice(RECEIVERS)
+        decorators = ()
+        if recv is None and rng.random() < 0.6:
+            decorators = ("@staticmethod",)
+        elif recv == "cls" and rng.random() < 0.5:
+            decorators = ("@classmethod",)
+        tags.append("receiver:%s" % (recv if recv in ("self", "cls") else "none" if recv is None else "other"))
+        r = rng.random()
+        idoc = "" if r < 0.25 else S._quote(S.render_doc(rng, rng.choice(["rest", "google", "numpydoc"]), rng.choice(["Construct it", ""]), ips,
+                                                          rng.choice(RETURN_ENTRIES) if rng.random() < 0.15 else None), "        ")
+        inner = S._init(rng, ips, idoc, receiver=recv, decorators=decorators)
+        if rng.random() < 0.2:
+            inner += "\n\n    def __call__(self, x):\n        return x"
+        src = S.gen_class(rng, ps, [], style, inner=inner)
+        ntop = len(ast.parse(src).body[0].body)
+        entries = []
+        how = rng.choice(["merge", "merge", "merge", "both", "both", "plain"])
+        if how in ("merge", "both"):
+            entries.append(([], "class_", {"merge_inner_function": "__init__"}, "class, __init__ merged"))
+        if how in ("plain", "both"):
+            entries.append(([], "class_", {}, "class"))
+        if rng.random() < 0.3:
+            # the constructor on its own, too (what sync does with a `Class.method` path)
+            k = next(i for i, st in enumerate(ast.parse(src).body[0].body) if isinstance(st, ast.FunctionDef) and st.name == "__init__")
+            entries.append(([k], "function", {}, "__init__ of the class"))
+            assert k < ntop
+        tags.append("class:" + how)
+        add(src, entries)
+    # ---- an argparse function
+    if rng.random() < 0.5:
+        ps, _t = S.gen_params(rng, allow_fail=False)
+        src = S.gen_argparse(rng, ps, [], choices=0.2)
+        entries = [([], "argparse_ast", {}, "argparse function")]
+        if rng.random() < 0.4:
+            entries.append(([], "function", {}, "argparse function read as a function"))
+        tags.append("argparse")
+        add(src, entries)
+    # ---- an ordinary definition of the signature strata
+    if rng.random() < 0.4 or not targets:
+        for _ in range(20):
+            src, info = fam_parsesig.gen_def(rng, kind="static", name=rng.choice(["g", "h", "run_all"]))
+            if fam_parsesig._ok_source(src):
+                tags.append("plain-def")
+                add(src, [([], "function", {}, "function g")])
+                break
+    order = list(range(len(blocks)))
+    if rng.random() < 0.3:                                        # the definitions in another order in the file
+        rng.shuffle(order)
+        pos = {old: new for new, old in enumerate(order)}
+        for t in targets:
+            t["path"][0] = pos[t["path"][0]]
+    head = "from typing import List, Optional, Tuple\n\n\n"
+    src = head + "\n\n".join(blocks[o] for o in order)
+    for t in targets:
+        t["path"][0] += 1                                         # the import statement is body[0]
+    if len(targets) > 4:
+        # keep the sequences enumerable: four targets, chosen so that doc-sharing partners stay together
+        keep = targets[:2] + rng.sample(targets[2:], 2)
+        targets = [t for t in targets if t in keep]
+    return {"src": src, "targets": targets, "tags": tags}
+
+
+_ADDRESS = __import__("re").compile(r" at 0x[0-9a-fA-F]+>")
+
+
+def _node_at(tree, path):
+    node = tree
+    for k in path:
+        node = node.body[k]
+    return node
+
+
+def _tree_emitters(m):
+    return [("emit.docstring", lambda ir: m.emit.docstring(ir)),
+            ("emit.class_", lambda ir: m.emit.class_(ir, emit_call=True)),
+            ("emit.function", lambda ir: m.emit.function(ir, ir.get("name") or "f", ir.get("type") or "static")),
+            ("emit.argparse", lambda ir: m.emit.argparse_function(ir, function_name=ir.get("name"))),
+            ("emit.docstring", lambda ir: m.emit.docstring(ir))]
+
+
+def explore_tree(mod, maxlen, emit_share=1.0, rng=None):
+    """every sequence (with repetition, up to maxlen) of the module's parse targets on ONE tree object, the returned
+    IRs kept by the caller.  After every call: the tree still dumps as before; every IR an earlier call returned is
+    still what it was when it was returned (order-sensitive picture, carried bodies included); the result equals the
+    one the same call gave on an untouched copy of the tree at the start.  After the last call of a sequence the
+    emitters run on the IR it returned (its carried body aliases the tree), then the target is parsed once more.
+    -> (evaluations, failures)"""
+    import itertools
+    import json
+    m = impl()
+    try:
+        tree0 = ast.parse(mod["src"])
+    except SyntaxError:
+        return 0, []
+    targets = mod["targets"]
+    fns = {"function": m.parse.function, "class_": m.parse.class_, "argparse_ast": m.parse.argparse_ast}
+    dump0 = ast.dump(tree0)
+    evals, failures = 0, []
+
+    def run(f, *a, **kw):
+        try:
+            return f(*a, **kw)
+        except Exception as e:  # noqa
+            return "<raised %s>" % exc_kind(e)
+
+    def show(r):
+        # an IR that holds a raw ast node as a default (the open C12 finding) is printed with the node's memory address,
+        # and a deep copy of that IR has its nodes elsewhere: the address says nothing about interference
+        if isinstance(r, ast.AST):
+            return _ADDRESS.sub(" at 0x?>", ast.dump(r))
+        if isinstance(r, dict):
+            return json.dumps(strict_snapshot(r))
+        return _ADDRESS.sub(" at 0x?>", repr(r))
+
+    def call(j, tree):
+        t = targets[j]
+        return run(fns[t["parser"]], _node_at(tree, t["path"]), **t["kw"])
+
+    def label(j):
+        t = targets[j]
+        return "parse.%s(%s%s)" % (t["parser"], t["label"], "".join(", %s=%r" % kv for kv in sorted(t["kw"].items())))
+
+    def fail(seq, what):
+        failures.append({"case": {"tree": {"src": mod["src"], "targets": targets, "maxlen": maxlen},
+                                  "seq": [label(x) for x in seq]}, "what": what, "class": None})
+    # the reference: each target on its own untouched copy of the tree
+    fresh = []
+    for j in range(len(targets)):
+        fresh.append(show(call(j, copy.deepcopy(tree0))))
+        evals += 1
+    emitters = _tree_emitters(m)
+    for L in range(1, maxlen + 1):
+        for seq in itertools.product(range(len(targets)), repeat=L):
+            if len(failures) >= 3:                      # enough witnesses from one module
+                return evals, failures
+            shared = copy.deepcopy(tree0)
+            held = []                                   # (position in seq, IR object, its picture when it was returned)
+            ok = True
+            for step, j in enumerate(seq):
+                r = call(j, shared)
+                evals += 1
+                if ast.dump(shared) != dump0:
+                    fail(seq[:step + 1], "%s altered the tree it was given (call %d on this tree): %s"
+                         % (label(j), step + 1, _tree_change(tree0, shared)))
+                    ok = False
+                    break
+                for pos, ir, pic in held:
+                    now = strict_snapshot(ir)
+                    if now != pic:
+                        fail(seq[:step + 1], "%s changed the IR that call %d (%s) had returned to the caller: %s"
+                             % (label(j), pos + 1, label(seq[pos]), _first_change(pic, now)))
+                        ok = False
+                        break
+                if not ok:
+                    break
+                if show(r) != fresh[j]:
+                    fail(seq[:step + 1], "%s as call %d on the shared tree differs from what the same call gave on an untouched copy "
+                         "of the tree at the start (before the other parses of this module ran in this process: %s)"
+                         % (label(j), step + 1, [label(x) for x in range(len(targets))]))
+                    ok = False
+                    break
+                if isinstance(r, dict):
+                    held.append((step, r, strict_snapshot(r)))
+            if not ok or not held or held[-1][0] != len(seq) - 1:
+                continue
+            if emit_share < 1.0 and rng is not None and rng.random() >= emit_share:
+                continue
+            # emit from the IR of the last call (what sync does with its truth), then parse that target again
+            j = seq[-1]
+            _pos, r, _pic = held.pop()
+            pristine = copy.deepcopy(r)
+            for ek, (en, ef) in enumerate(emitters):
+                sb = strict_snapshot(r)
+                a1 = show(run(ef, r))
+                evals += 1
+                if ast.dump(shared) != dump0:
+                    fail(seq, "%s on the IR of %s altered the tree that IR's body aliases: %s" % (en, label(j), _tree_change(tree0, shared)))
+                    ok = False
+                    break
+                if a1 != show(run(ef, copy.deepcopy(pristine))):
+                    fail(seq, "%s on the IR %s returned, after %s, differs from the same call on a fresh copy of that IR"
+                         % (en, label(j), [e[0] for e in emitters[:ek]]))
+                    ok = False
+                    break
+                sa = strict_snapshot(r)
+                if sa != sb:
+                    fail(seq, "%s wrote into the IR %s returned: %s" % (en, label(j), _first_change(sb, sa)))
+                    ok = False
+                    break
+                for pos, ir, pic in held:
+                    now = strict_snapshot(ir)
+                    if now != pic:
+                        fail(seq, "%s on the IR of %s changed the IR that call %d (%s) had returned: %s"
+                             % (en, label(j), pos + 1, label(seq[pos]), _first_change(pic, now)))
+                        ok = False
+                        break
+                if not ok:
+                    break
+            if ok:
+                evals += 1
+                if show(call(j, shared)) != fresh[j]:
+                    fail(seq, "%s after emitting from its IR differs from the same call on an untouched copy of the tree" % label(j))
+    return evals, failures
+
+
+def _tree_change(a, b):
+    """the first line at which two trees unparse differently (for the report)"""
+    try:
+        x, y = ast.unparse(a).split("\n"), ast.unparse(b).split("\n")
+    except Exception:  # noqa
+        return "(not unparsable)"
+    for l1, l2 in zip(x, y):
+        if l1 != l2:
+            return "%r -> %r" % (l1.strip()[:110], l2.strip()[:110])
+    if len(x) != len(y):
+        return "%d lines -> %d lines" % (len(x), len(y))
+    return "a field outside the printed text"
+
+
 def check_case(case):
+    if "tree" in case:
+        t = case["tree"]
+        _ev, fs = explore_tree({"src": t["src"], "targets": t["targets"]}, t.get("maxlen", 3))
+        return (not fs), (fs[0]["what"] if fs else "")
     if "seq" in case and "spec" in case:
         spec = dict(case["spec"])
         if case.get("param_order") is not None:          # replays are written with sorted keys: the order is kept apart
@@ -393,6 +714,22 @@ def oracle(rng, tier):
         for f in fs:
             hist["fails:parsers"] += 1
             failures.append(f)
+    # parsers on one written module: several definitions (doc-sharing stubs and implementations, classes with an
+    # __init__ under any receiver name, argparse functions) in one tree, every parse sequence up to maxlen
+    n_m = 24 if tier == "quick" else 100
+    for _ in range(n_m):
+        mod = gen_tree_module(rng)
+        ev, fs = explore_tree(mod, 3 if tier == "quick" else 4, emit_share=0.5, rng=rng)
+        total += ev
+        hist["module-trees"] += 1
+        hist["module-trees:targets:%d" % len(mod["targets"])] += 1
+        for t in mod["tags"]:
+            hist["module:" + t] += 1
+        if len(mod["targets"]) >= 2:
+            seen.add(mod["src"])
+        for f in fs:
+            hist["fails:module-parsers"] += 1
+            failures.append(f)
     return {
         "evaluations": total,
         "distinct_nontrivial": len(seen),
@@ -400,7 +737,13 @@ def oracle(rng, tier):
                 "length %d over {class_, function, argparse_function, docstring}; non-trivial = distinct IR with >= 2 "
                 "parameters, a return entry or a body; the IR is compared before/after every call order-sensitively "
                 "(key order of params / of each parameter / of returns); IR strata with a ...kwargs parameter that is "
-                "not last; plus parser sequences on shared trees, the parsed IR shared by all four emitters" % maxlen,
+                "not last; plus parser sequences on shared trees, the parsed IR shared by all four emitters; plus written "
+                "modules (interface stubs and implementations with the character-identical docstring, with/without a "
+                "return entry and a return statement; classes whose __init__ calls its instance self / cls / any other "
+                "name / nothing, parsed with and without merge_inner_function; argparse functions; plain definitions): "
+                "every sequence of parse calls up to that length on ONE tree object, ast.dump of the tree after every "
+                "call, every IR the caller already holds compared after every later call, every result against the "
+                "same call on an untouched copy, then the emitters on the last IR and one more parse" % maxlen,
         "failures": failures,
         "histogram": dict(hist),
         "samples": [],
